@@ -1,0 +1,68 @@
+//go:build verif
+
+package store
+
+import (
+	"context"
+	"database/sql"
+	"time"
+
+	"go.uber.org/zap"
+
+	"github.com/zilliztech/milvus-cdc/core/log"
+)
+
+// NewMySQLMetaStoreWithDB builds a MySQLMetaStore around an already opened *sql.DB (same steps as
+// (*MySQLMetaStore).init minus sql.Open("mysql", ...)), so the store's own SQL can be run against an
+// injected database/sql driver.
+func NewMySQLMetaStoreWithDB(ctx context.Context, db *sql.DB, rootPath string) (*MySQLMetaStore, error) {
+	s := &MySQLMetaStore{}
+	s.log = log.With(zap.String("meta_store", "mysql")).Logger
+	s.db = db
+	timeoutCtx, cancelFunc := context.WithTimeout(ctx, 10*time.Second)
+	defer cancelFunc()
+	if err := db.PingContext(timeoutCtx); err != nil {
+		return nil, err
+	}
+	txnMap := make(map[any]func() *sql.Tx)
+	var err error
+	s.taskInfoStore, err = NewTaskInfoMysqlStore(ctx, db, rootPath, txnMap)
+	if err != nil {
+		return nil, err
+	}
+	s.taskCollectionPositionStore, err = NewTaskCollectionPositionMysqlStore(ctx, db, rootPath, txnMap)
+	if err != nil {
+		return nil, err
+	}
+	s.txnMap = txnMap
+	s.replicateStore, err = NewMySQLReplicateStoreWithDB(ctx, db, rootPath)
+	if err != nil {
+		return nil, err
+	}
+	return s, nil
+}
+
+// NewMySQLReplicateStoreWithDB is NewMySQLReplicateStore minus sql.Open("mysql", ...).
+func NewMySQLReplicateStoreWithDB(ctx context.Context, db *sql.DB, rootPath string) (*MySQLReplicateStore, error) {
+	s := &MySQLReplicateStore{}
+	s.rootPath = rootPath
+	s.log = log.With(zap.String("meta_store", "mysql")).Logger
+	s.db = db
+	timeoutCtx, cancelFunc := context.WithTimeout(ctx, 10*time.Second)
+	defer cancelFunc()
+	if err := db.PingContext(timeoutCtx); err != nil {
+		return nil, err
+	}
+	_, err := db.ExecContext(timeoutCtx, `
+		CREATE TABLE IF NOT EXISTS task_msg (
+			task_msg_key VARCHAR(255) NOT NULL,
+			task_msg_value JSON NOT NULL,
+			PRIMARY KEY (task_msg_key),
+			INDEX idx_key (task_msg_key)
+		)
+	`)
+	if err != nil {
+		return nil, err
+	}
+	return s, nil
+}
